@@ -635,9 +635,35 @@ func c06WF(c *Ctx) error {
 	return nil
 }
 
+const c06ProbeTarget = `package p
+
+func f(...interface{}) int { return 0 }
+func g(...interface{}) int { return 0 }
+
+func use(x int, s string) {
+	f(x)
+	f(x + 1)
+	g(s, x)
+	if x > 0 {
+		f(1, 2)
+	}
+	// TODO(me): a comment
+	_ = f(g(x))
+}
+`
+
+var c06LocatedRE = regexp.MustCompile(`rules\.go:\d+`)
+
+// c06Located: the error names the rules file and a line (parser and type-checker errors carry line:col too).
+func c06Located(msg string) bool { return c06LocatedRE.MatchString(msg) }
+
 // c06Front: the un-modelled front half under mutation; a panic or a hang is a violation.
 func c06Front(c *Ctx, n int) error {
 	res := c.Res
+	probeTarget, perr := hx.ParseTarget("c06probe.go", c06ProbeTarget)
+	if perr != nil {
+		return perr
+	}
 	rng := hx.Rng(c.Seed, "c06-front")
 	fixtures := c06Fixtures()
 	if len(fixtures) == 0 {
@@ -648,46 +674,52 @@ func c06Front(c *Ctx, n int) error {
 		seeds = append(seeds, []byte(hx.RulesFile(s)))
 	}
 	tokens := []string{"m", ".", "Match", "Where", "Report", "Suggest", "At", "(", ")", `"$x"`, `"`, "$", "[", "]", "{", "}", "!", "&&", "||", "==", "<", "nil", "0", "func", "dsl.Var", "return", "\n", ",", "m[\"x\"]", ".Type", ".Is", ".Text", ".Matches", ".Filter", ".Do", "Import", "MatchComment", "Bundle", "var", ":=", "`"}
-	for i := 0; i < n; i++ {
+	for i := 0; i < n+len(seeds); i++ {
 		var src []byte
 		kind := ""
-		switch k := rng.Intn(10); {
-		case k == 0:
-			kind = "bytes"
-			src = make([]byte, rng.Intn(200))
-			rng.Read(src)
-		case k < 4:
+		if i < len(seeds) {
+			// every hand-written seed first, unmutated
 			kind = "seed"
-			src = append([]byte{}, seeds[rng.Intn(len(seeds))]...)
-		default:
-			kind = "mutated"
-			if rng.Intn(2) == 0 {
+			src = append([]byte{}, seeds[i]...)
+		} else {
+			switch k := rng.Intn(10); {
+			case k == 0:
+				kind = "bytes"
+				src = make([]byte, rng.Intn(200))
+				rng.Read(src)
+			case k < 4:
+				kind = "seed"
 				src = append([]byte{}, seeds[rng.Intn(len(seeds))]...)
-			} else {
-				src = append([]byte{}, fixtures[rng.Intn(len(fixtures))]...)
-				if len(src) > 6000 {
-					src = src[:6000+rng.Intn(200)]
+			default:
+				kind = "mutated"
+				if rng.Intn(2) == 0 {
+					src = append([]byte{}, seeds[rng.Intn(len(seeds))]...)
+				} else {
+					src = append([]byte{}, fixtures[rng.Intn(len(fixtures))]...)
+					if len(src) > 6000 {
+						src = src[:6000+rng.Intn(200)]
+					}
 				}
-			}
-			nm := 1 + rng.Intn(3)
-			for m := 0; m < nm && len(src) > 10; m++ {
-				pos := rng.Intn(len(src))
-				tok := tokens[rng.Intn(len(tokens))]
-				switch rng.Intn(3) {
-				case 0: // insert
-					src = append(src[:pos], append([]byte(tok), src[pos:]...)...)
-				case 1: // delete a span
-					end := pos + rng.Intn(12)
-					if end > len(src) {
-						end = len(src)
+				nm := 1 + rng.Intn(3)
+				for m := 0; m < nm && len(src) > 10; m++ {
+					pos := rng.Intn(len(src))
+					tok := tokens[rng.Intn(len(tokens))]
+					switch rng.Intn(3) {
+					case 0: // insert
+						src = append(src[:pos], append([]byte(tok), src[pos:]...)...)
+					case 1: // delete a span
+						end := pos + rng.Intn(12)
+						if end > len(src) {
+							end = len(src)
+						}
+						src = append(src[:pos], src[end:]...)
+					default: // replace an identifier-ish span
+						end := pos
+						for end < len(src) && end-pos < 10 && (src[end] >= 'a' && src[end] <= 'z' || src[end] >= 'A' && src[end] <= 'Z') {
+							end++
+						}
+						src = append(src[:pos], append([]byte(tok), src[end:]...)...)
 					}
-					src = append(src[:pos], src[end:]...)
-				default: // replace an identifier-ish span
-					end := pos
-					for end < len(src) && end-pos < 10 && (src[end] >= 'a' && src[end] <= 'z' || src[end] >= 'A' && src[end] <= 'Z') {
-						end++
-					}
-					src = append(src[:pos], append([]byte(tok), src[end:]...)...)
 				}
 			}
 		}
@@ -697,7 +729,14 @@ func c06Front(c *Ctx, n int) error {
 			err := hx.LoadInto(e, "rules.go", string(src), nil)
 			switch {
 			case err == nil:
+				// an accepted rule set must not fail for structural reasons at run time
+				if _, pk, frame, rerr := hx.Run(e, probeTarget, hx.RunOpts{}); rerr == nil && pk != "" {
+					done <- "RUNPANIC " + pk + " " + frame
+					return
+				}
 				done <- "ok"
+			case !strings.HasPrefix(err.Error(), "PANIC") && !c06Located(err.Error()):
+				done <- "UNLOCATED " + err.Error()
 			case strings.HasPrefix(err.Error(), "PANIC"):
 				done <- err.Error()
 			default:
@@ -716,6 +755,15 @@ func c06Front(c *Ctx, n int) error {
 			res.Dist("front:" + kind + ":loaded")
 		case out == "err":
 			res.Dist("front:" + kind + ":error")
+		case strings.HasPrefix(out, "RUNPANIC"):
+			res.Dist("front:" + kind + ":RUNPANIC")
+			f := strings.Fields(out)
+			res.Violate(hx.Violation{Signature: "load:accepted-rule-fails-at-run-time:" + strings.Join(f[1:], " "), What: "Load accepts a rule set that panics when run on a plain file: " + clip(out),
+				Input: map[string]interface{}{"rules_src": string(src), "target": c06ProbeTarget}, Impl: clip(out), Spec: "load error, or a rule that runs"})
+		case strings.HasPrefix(out, "UNLOCATED"):
+			res.Dist("front:" + kind + ":unlocated-error")
+			res.Violate(hx.Violation{Signature: "load:error-without-file-and-line", What: "Load returns an error that does not name the file and line: " + clip(out),
+				Input: map[string]interface{}{"rules_src": string(src)}, Impl: clip(out), Spec: "rules.go:<line>: ..."})
 		default:
 			res.Dist("front:" + kind + ":CRASH")
 			sig := "load:hang"
@@ -749,4 +797,39 @@ func r(m dsl.Matcher) { m.Match("f($x)").Where(m["x"].Filter(helper)).Report("x"
 	`func r(m dsl.Matcher) { m.Match("f($x)").Where(m["x"].Type.Size == m["x"].Line).Report("x") }`,
 	`const pat = "f(" + "$x)"
 func r(m dsl.Matcher) { m.Match(pat).Where(m.GoVersion().Eq("1." + "16")).Suggest("g($x)") }`,
+	`func r(m dsl.Matcher) { m.Match("f($x)").Where(m.GoVersion().Eq("1")).Report("x") }`,
+	`func r(m dsl.Matcher) { m.Match("f($x)").Where(m.GoVersion().LessThan("go1")).Report("x") }`,
+	`func r(m dsl.Matcher) { m.Match("f($x)").Where(m.GoVersion().GreaterEqThan("1.2.3")).Report("x") }`,
+	`func r1(m dsl.Matcher) {
+	h := func(v dsl.Var) bool { return v.Pure }
+	m.Match("f($x)").Where(h(m["x"])).Report("x")
+}
+func r2(m dsl.Matcher) {
+	h := func(v dsl.Var, w dsl.Var) bool { return v.Pure && w.Const }
+	m.Match("g($x, $y)").Where(h(m["x"], m["y"])).Report("x")
+}`,
+	`func r(m dsl.Matcher) {
+	f := func(dsl.Var) bool { return true }
+	m.Match("f($x)").Where(f(m["x"])).Report("x")
+}`,
+	`func r(m dsl.Matcher) {
+	f := func() (b bool) { return }
+	m.Match("f($x)").Where(f()).Report("x")
+}`,
+	`type T struct{}
+func (T) Filter() bool { return true }
+func r(m dsl.Matcher) {
+	var t T
+	m.Match("f($x)").Where(t.Filter()).Report("x")
+}`,
+	`func flt(_ *dsl.VarFilterContext, _ *dsl.VarFilterContext) bool { return true }
+func r(m dsl.Matcher) { m.Match("f($x)").Report("x") }`,
+	`func r(m dsl.Matcher) { m.Match("f($x)").Where(m["x"].Type.IdenticalTo(m["y"])).Report("x") }`,
+	`func r(m dsl.Matcher) { m.Match("f($x)").Where(m["x"].Type.HasMethod("%%")).Report("x") }`,
+	`func r(m dsl.Matcher) {
+	h := func(v dsl.Var, k string) bool { return v.Type.Is(k) }
+	m.Match("f($x)").Where(h(m["x"], "int") || h(m["x"], ("string"))).Report("x")
+}`,
+	`func r(m dsl.Matcher) { m.Match("f($x)", "g($y)").Where(m["x"].Pure).Report("x") }`,
+	`func r(m dsl.Matcher) { m.Match("g($y)", "f($x)").Where(m["x"].Text != "a").At(m["x"]).Report("x") }`,
 }
